@@ -14,7 +14,7 @@ package kvs
 // wait exactly once; the result is that commit's result. In the committed
 // view every key holds the value of the last pair naming it and no other
 // block changed (M1); a failed commit installs nothing (journal contract).
-//@ spec (*KVS).MultiPut
+//@ spec (*KVS).MultiPut(kvs, pairs)
 //@   props C18 C11
 //@   requires kvsInv(kvs)
 //@   requires [M0-keys] forall i uint64 :: i < len(pairs) ==> keyOK(kvs, pairs[i].Key) @C18 @C11
@@ -30,7 +30,7 @@ package kvs
 
 // Get: the value of the key in the current committed view, copied out; the
 // operation is committed with wait, the flag is that commit's result.
-//@ spec (*KVS).Get
+//@ spec (*KVS).Get(kvs, key)
 //@   props C18 C11
 //@   requires kvsInv(kvs)
 //@   requires [M0-keys] keyOK(kvs, key) @C18 @C11
